@@ -17,6 +17,8 @@ EXPLANATION = """
 R1 (K3/K1) _save_pack_names: lock_names() precedes _diff_pack_names() and the pack-names write; after lock_names()
    every exit (normal and exceptional) passes _unlock_names(); _packs_at_load is reassigned only after the write and
    from the merged node set that was written.
+R1b after the write, _syncronize_pack_names_from_disk_nodes(<merged set>) runs on every normal path of _save_pack_names
+   (found by the mutation survey tools/automutate.py).
 R2 (K8) _diff_pack_names is evaluated abstractly on one element per combination of the three membership bits
    (listed on disk now / in _packs_at_load / in memory _names) — 8 rows, exhaustive because the function only applies
    pointwise set operations — and the returned sets must equal the three-way merge: an entry this process changed
@@ -59,6 +61,13 @@ def run(ctx):
     merged = names[0]
     vals = [norm(g.nodes[i].ast.value) for i in setl]
     ctx.check("R1-atload-is-written-set", where, all(v == merged for v in vals), f"_packs_at_load := {merged} (the merged set that was written)", construct="; ".join(vals), message=f"_packs_at_load is assigned {vals}, not the merged set `{merged}` that was written")
+    # after the write the in-memory name list is brought in line with the merged set: _packs_at_load already is the merged
+    # set, so a memory list that still lacks another writer's pack would make the next save classify that pack as
+    # "deleted by us" and drop it from pack-names
+    sync1 = [i for i in calling(g, attr="_syncronize_pack_names_from_disk_nodes") if any(norm(c.args[0]) == merged for c in g.nodes[i].calls() if call_attr(c) == "_syncronize_pack_names_from_disk_nodes" and c.args)]
+    gxs = g.without_exc_edges()
+    r_sync = gxs.reach(put, avoid=set(sync1))
+    ctx.check("R1-memory-follows-written-set", where, bool(sync1) and gxs.exit not in r_sync, f"after pack-names was written, _syncronize_pack_names_from_disk_nodes({merged}) runs on every normal path", message=f"_save_pack_names can return after writing pack-names without bringing the in-memory name list in line with the merged set `{merged}`: _packs_at_load already contains the other writers' packs, the memory list does not, so the next save takes them for packs this process deleted and removes them from pack-names — committed data of a concurrent writer is lost")
     loops = [n for n in walk_own(fn) if isinstance(n, ast.For) and any(call_attr(c) == "add_node" for c in calls_in(n))]
     ctx.check("R1-written-set-is-merged", where, len(loops) == 1 and norm(loops[0].iter) == merged, f"the index written to pack-names is built from `{merged}`", construct=norm(loops[0].iter) if loops else "", message="the pack-names content is not built from the merged node set")
 
@@ -139,10 +148,11 @@ def run(ctx):
     galx = gal.without_exc_edges()
     dup = [n.id for n in galx.nodes if n.kind == "test" and any(isinstance(c, ast.Compare) and isinstance(c.ops[0], ast.In) and norm(c.left).endswith(".name") and norm(c.comparators[0]) == "self._names" for c in ast.walk(n.ast))]
     ctx.require(len(dup) >= 1, f"{wal}: the `<pack>.name in self._names` test was not found")
-    t_succ = [b for t in dup for (b, l_) in galx.succ[t] if l_ == "T"]
-    r6 = galx.reach(t_succ, include_src=True)
-    w6 = galx.path(t_succ, [galx.exit]) if galx.exit in r6 else None
-    ctx.check("R6-allocate-refuses-duplicate", wal, galx.exit not in r6, "when the pack's name is already listed, allocate() raises on every path", construct="a normal return under `name in self._names`", message="allocate() can return normally for a pack whose name is already in pack-names: after a concurrent pack and a retry, a packer that reproduces one of its source packs no longer stops — it removes that name from the list and obsoletes the only copy of the data", witness=galx.show_path(w6) if w6 else None)
+    cond6 = next(norm(c) for t in dup for c in ast.walk(galx.nodes[t].ast) if isinstance(c, ast.Compare) and isinstance(c.ops[0], ast.In) and norm(c.comparators[0]) == "self._names")
+    g6 = galx.assume({cond6: True, f"not {cond6}": False, f"{cond6.replace(' in ', ' not in ')}": False})
+    r6 = g6.reachable_from_entry()
+    w6 = g6.path([g6.entry], [g6.exit]) if g6.exit in r6 else None
+    ctx.check("R6-allocate-refuses-duplicate", wal, g6.exit not in r6, "when the pack's name is already listed, allocate() raises on every path", construct="a normal return under `name in self._names`", message="allocate() can return normally for a pack whose name is already in pack-names: after a concurrent pack and a retry, a packer that reproduces one of its source packs no longer stops — it removes that name from the list and obsoletes the only copy of the data", witness=galx.show_path(w6) if w6 else None)
     # ---- R7: index and upload transports convert NoSuchFile at every read entry point ---------------------------------
     # CombinedGraphIndex reloads pack-names only on bzrformats' NoSuchFile.  The entry points the index implementations
     # read through are tabled (hand-confirmed on the pinned tree: get_bytes for whole-file GraphIndex reads, readv for
@@ -168,6 +178,7 @@ def _unpack_names(fn, callee):
 
 
 MUTANTS = [
+    Mutant("memory list not resynchronised after the write", PR, "        # synchronise the memory packs list with what we just wrote:\n        self._syncronize_pack_names_from_disk_nodes(disk_nodes)\n", "", expect="R1-memory-follows-written-set"),
     Mutant("allocate tolerates a name that is already listed", PR, "        if a_new_pack.name in self._names:\n            raise errors.BzrError(f\"Pack {a_new_pack.name!r} already exists in {self}\")\n", "        if a_new_pack.name in self._names:\n            if self._names[a_new_pack.name] == tuple(a_new_pack.index_sizes):\n                return\n            raise errors.BzrError(f\"Pack {a_new_pack.name!r} already exists in {self}\")\n", expect="R6-allocate-refuses-duplicate"),
     Mutant("whole-file index reads no longer converted", "breezy/transport/__init__.py", "    def get_bytes(self, relpath):\n        try:\n            return self._transport.get_bytes(relpath)\n        except NoSuchFile as e:\n            self._convert(e)\n\n", "", expect="R7-missing-file-error-converted"),
     Mutant("drop difference_update(deleted_nodes)", PR, "        disk_nodes.difference_update(deleted_nodes)\n", "", expect="R2-three-way-merge"),
